@@ -103,6 +103,25 @@ def run(tier):
                 timed("qr", base + 60), {"op": "xwb"}]
         hs.append({"comp": "none", "out": "file", "preamble": {"major": histgen.nat(1), "minor": [], "private": histgen.nat(1), "bps": [bp]},
                    "ops": ops})
+    # the exporter's block re-used under a COARSER tick rate after it held sub-second instants at a finer one; the first
+    # record of the new block carries no time, a later one does (what the block remembered must not outlive clear())
+    for k in range(12 if tier == "quick" else 120):
+        pools = histgen.Pools(rng)
+        fine, coarse = rng.choice([(1000000, 1000), (1000000000, 1000), (1000000, 1), (1000, 7)])
+        b0 = histgen.gen_bp(rng, pools, tps=fine, maxitems=10000, hints=(histgen.ALL_QRH, histgen.ALL_SIGH, 3, 3))
+        b1 = histgen.gen_bp(rng, pools, tps=coarse, maxitems=10000, hints=(histgen.ALL_QRH, histgen.ALL_SIGH, 3, 3))
+        def rec(kind, secs, ticks):
+            r = {"client_port": histgen.nat(k + 1)} if kind == "qr" else {"client_port": histgen.nat(9)}
+            if secs is not None:
+                r["ts"] = {"s": histgen.nat(secs), "t": histgen.nat(ticks)}
+            return {"op": kind, "r": r}
+        base = 1000 + rng.randrange(100)
+        ops = [rec("qr", base, fine - 1 - rng.randrange(min(fine, 1000))), rec(rng.choice(["qr", "mm"]), base + 1, 0), {"op": "wb"},
+               {"op": "setbp", "i": 1}, {"op": "wb"},
+               rec("qr", None, 0), rec(rng.choice(["qr", "mm"]), base + 1, min(5, coarse - 1)), rec("qr", base + 2, 0), {"op": "wb"},
+               {"op": "setbp", "i": 0}, {"op": "wb"}, rec("mm", None, 0), rec("qr", base + 3, 1), {"op": "wb"}]
+        hs.append({"comp": "none", "out": "file", "preamble": {"major": histgen.nat(1), "minor": [], "private": histgen.nat(1), "bps": [b0, b1]},
+                   "ops": ops})
     m2 = run_histories(chk, hs, {"C17"}, label="c17x", sample=False)
     chk.distinct = merged["execs"] + m2["execs"] + m3["execs"]
     return chk.finish()
